@@ -104,6 +104,71 @@ theorem conts_discipline {s : Simp} {o : Oracle} {cfg : Cfg} {codes : List (Nat 
     cs'.conts = cs.conts ∨ (∃ k, cs'.conts = k :: cs.conts) ∨ (∃ k, cs.conts = k :: cs'.conts) :=
   stepC_conts hnc h
 
+/-! ### CREATE on the model (`Cfg.create` on; no simulation yet — see the header of Model.SevmCalls) -/
+
+/-- **create_frame_model.** The constructor frame: the new account exists with empty code and empty maps, the frame
+    runs the init code from pc 0 with no calldata, the creator as caller, not static; the creator is suspended as the
+    creator of `addr` with the snapshot of every account's maps, the log and the given balances. -/
+theorem create_frame_model (s : Simp) (cs : CState) (addr : Nat) (rest : List HV) (init : List Nat) (cv : T)
+    (sb : List (T × T)) :
+    ∃ k, (createFrame s cs addr rest init cv sb).conts = k :: cs.conts ∧ k.create = some addr ∧
+      (∀ a, stoOf k.snapshot a = viewOf cs a) ∧ k.snapLogs = cs.logs ∧ k.snapBal = sb ∧ k.this = cs.this ∧
+      k.st = { cs.st with stack := rest } ∧
+      (createFrame s cs addr rest init cv sb).code = init ∧ (createFrame s cs addr rest init cv sb).this = addr ∧
+      (createFrame s cs addr rest init cv sb).st.pc = 0 ∧
+      (createFrame s cs addr rest init cv sb).env.cdSize = 0 ∧
+      (createFrame s cs addr rest init cv sb).env.caller = cs.env.address ∧
+      (createFrame s cs addr rest init cv sb).env.callvalue = cv ∧
+      (createFrame s cs addr rest init cv sb).env.isStatic = false ∧
+      codeOf (createFrame s cs addr rest init cv sb).st.created addr = some [] ∧
+      (createFrame s cs addr rest init cv sb).st.storage = [] ∧
+      (createFrame s cs addr rest init cv sb).st.nonce = cs.st.nonce ∧
+      (createFrame s cs addr rest init cv sb).st.path = cs.st.path := by
+  have hsto : ∀ a, stoOf (stoSet cs.stores cs.this
+      { storage := cs.st.storage, transient := cs.st.transient }) a = viewOf cs a := by
+    intro a; rw [stoOf_stoSet]; rfl
+  refine ⟨_, rfl, rfl, hsto, rfl, rfl, rfl, rfl, rfl, rfl, rfl, rfl, rfl, rfl, rfl, ?_, rfl, rfl, rfl⟩
+  simp [createFrame, codeOf]
+
+/-- **create_fail_model.** The constructor of `addr` ends with an untagged halt that is not a success: exactly one
+    successor, the creator, with 0 pushed, the revert data as return data, memory untouched, and everything rolled
+    back — maps, log, balances, and the set of created accounts (the account is gone); only the attempt counter and the
+    path conditions stay. -/
+theorem create_fail_model (cs : CState) (k : Cont) (ks : List Cont) (hc : cs.conts = k :: ks) (e : EndState)
+    (h : Evm.Halt) (ho : e.out = .halt h) (ht : e.tag = .normal) (hf : haltOk h = false) (addr : Nat)
+    (hk : k.create = some addr) :
+    ∃ cs', (frameEnd cs e).next = [cs'] ∧ (frameEnd cs e).ends = [] ∧
+      cs'.stores = k.snapshot ∧ cs'.logs = k.snapLogs ∧ cs'.bal = k.snapBal ∧ cs'.st.created = k.st.created ∧
+      cs'.st.nonce = e.st.nonce ∧ cs'.st.stack = .bv 256 (.con 0) :: k.st.stack ∧
+      cs'.st.returndata = haltData h e.data ∧ cs'.st.mem = k.st.mem ∧ cs'.st.pc = k.st.pc + 1 ∧
+      cs'.st.path = e.st.path ∧ cs'.conts = ks ∧ cs'.this = k.this ∧ cs'.code = k.code := by
+  have hfe : frameEnd cs e = createEnd cs (fullOf cs e) k ks h e addr := by
+    unfold frameEnd; simp only [hc, ho, ht, hk]; rfl
+  rw [hfe]; unfold createEnd; rw [if_neg (by simp [hf])]
+  refine ⟨_, rfl, rfl, ?_, ?_, ?_, ?_, rfl, ?_, rfl, rfl, rfl, rfl, rfl, rfl, rfl⟩ <;> simp [resume, hf]
+
+/-- **create_success_model.** The constructor returns concrete bytes: they become the code of `addr`, the address is
+    pushed, the return data is empty (EIP-211), memory untouched; maps, log and balances are the constructor's. -/
+theorem create_success_model (cs : CState) (k : Cont) (ks : List Cont) (hc : cs.conts = k :: ks) (e : EndState)
+    (h : Evm.Halt) (ho : e.out = .halt h) (ht : e.tag = .normal) (hf : haltOk h = true) (addr : Nat)
+    (hk : k.create = some addr) (code : List Nat) (hlit : litBytes? e.data = some code) :
+    ∃ cs', (frameEnd cs e).next = [cs'] ∧ (frameEnd cs e).ends = [] ∧
+      cs'.stores = fullOf cs e ∧ cs'.logs = cs.logs ∧ cs'.bal = cs.bal ∧
+      codeOf cs'.st.created addr = some code ∧ cs'.st.nonce = e.st.nonce ∧
+      cs'.st.stack = .bv 256 (.con addr) :: k.st.stack ∧ cs'.st.returndata = [] ∧ cs'.st.mem = k.st.mem ∧
+      cs'.st.pc = k.st.pc + 1 ∧ cs'.st.path = e.st.path ∧ cs'.conts = ks := by
+  have hfe : frameEnd cs e = createEnd cs (fullOf cs e) k ks h e addr := by
+    unfold frameEnd; simp only [hc, ho, ht, hk]; rfl
+  have hce : createEnd cs (fullOf cs e) k ks h e addr =
+      { next := [{ (resume (fullOf cs e) cs.logs cs.bal k ks h e) with st := { (resume (fullOf cs e) cs.logs cs.bal k ks h e).st with stack := .bv 256 (.con addr) :: k.st.stack, mem := k.st.mem, returndata := [], created := (addr, code) :: e.st.created } }] } := by
+    unfold createEnd; rw [if_pos hf]; simp only [hlit]
+  rw [hfe, hce]
+  refine ⟨_, rfl, rfl, ?_, ?_, ?_, ?_, rfl, rfl, rfl, rfl, rfl, rfl, rfl⟩
+  · simp [resume, hf, fullOf]
+  · simp [resume, hf]
+  · simp [resume, hf]
+  · simp [codeOf]
+
 /-! ### atomicity on the reference -/
 
 /-- **atomic_spec.** `Spec.Evm.exec`: a zero-value CALL / CALLCODE / DELEGATECALL / STATICCALL that passes the memory
